@@ -732,7 +732,19 @@ func Run(in Input) (c *common.Case) {
 		}
 		mterms[k] = memberTerm(ms[i], meas[i], now)
 	}
-	c.Coq = q.App("C07.MkCase", q.List(mterms), q.Z(t0), q.Z(t1), q.List(compItems), obsTerm)
+	// referee: GNU tar extracts the archive as root; every member written must come out as the
+	// header read back by archive/tar says
+	extItems := []string{}
+	if rc == 0 && in.Extract {
+		extDesc := []interface{}{}
+		res, tarOut := extractAndCompare(tmp, order, ms, hdrs)
+		for _, r := range res {
+			extItems = append(extItems, q.Bool(r.Same))
+			extDesc = append(extDesc, r)
+		}
+		desc["extract"] = map[string]interface{}{"members": extDesc, "tar_output": tarOut}
+	}
+	c.Coq = q.App("C07.MkCase", q.List(mterms), q.Z(t0), q.Z(t1), q.List(compItems), q.List(extItems), obsTerm)
 
 	// evidence bookkeeping
 	classes := map[string]bool{}
@@ -752,6 +764,9 @@ func Run(in Input) (c *common.Case) {
 	}
 	if len(in.Comp) > 0 {
 		classes["compressed"] = true
+	}
+	if len(extItems) > 0 {
+		classes["extracted-by-gnu-tar"] = true
 	}
 	sort.Strings(keyParts)
 	c.Key = strings.Join(keyParts, "|")
@@ -862,4 +877,103 @@ func RunJSON(raw json.RawMessage) (*common.Case, error) {
 		return nil, err
 	}
 	return Run(in), nil
+}
+
+// ---------------------------------------------------------------- GNU tar referee
+type extRes struct {
+	Name string `json:"name"`
+	Same bool   `json:"same"`
+	Why  string `json:"why,omitempty"`
+}
+
+func extractAndCompare(tmp string, order []int, ms []MemberSpec, hdrs []*hdrObs) ([]extRes, string) {
+	xdir := tmp + "/x"
+	must(os.MkdirAll(xdir, 0755))
+	cmd := exec.Command("tar", "-xpf", tmp+"/out.tar", "--xattrs", "--xattrs-include=*", "--numeric-owner",
+		"--same-owner", "-C", xdir)
+	outb, _ := cmd.CombinedOutput()
+	tarOut := string(outb)
+	if len(tarOut) > 600 {
+		tarOut = tarOut[:600]
+	}
+	byName := map[string]*hdrObs{}
+	for _, h := range hdrs {
+		if h != nil {
+			byName[h.Name] = h
+		}
+	}
+	ids := map[[2]uint64]int{}
+	var res []extRes
+	for _, i := range order {
+		h := hdrs[i]
+		if h == nil {
+			continue
+		}
+		r := extRes{Name: string(ms[i].Name), Same: true}
+		fail := func(f string, a ...interface{}) {
+			if r.Same {
+				r.Same = false
+				r.Why = fmt.Sprintf(f, a...)
+			}
+		}
+		if (h.Type == tar.TypeChar || h.Type == tar.TypeBlock) && (h.Major > 4095 || h.Minor > 1048575) {
+			// the header is fine but Linux cannot create such a node: nothing to compare
+			r.Why = "device numbers beyond the kernel's dev_t: not extractable on Linux"
+			res = append(res, r)
+			continue
+		}
+		o := measure(xdir+"/"+strings.TrimPrefix(h.Name, "./"), ids)
+		if o.State != "present" {
+			fail("not extracted (%s)", o.State)
+			res = append(res, r)
+			continue
+		}
+		ft := o.Mode & syscall.S_IFMT
+		want := map[byte]uint32{tar.TypeReg: syscall.S_IFREG, tar.TypeLink: syscall.S_IFREG, tar.TypeDir: syscall.S_IFDIR,
+			tar.TypeSymlink: syscall.S_IFLNK, tar.TypeChar: syscall.S_IFCHR, tar.TypeBlock: syscall.S_IFBLK}[h.Type]
+		if ft != want {
+			fail("type %o, header type %c", ft, h.Type)
+		}
+		if h.Type != tar.TypeSymlink && int64(o.Mode&07777) != h.Mode&07777 {
+			fail("mode %o, header %o", o.Mode&07777, h.Mode&07777)
+		}
+		if int(o.Uid) != h.Uid || int(o.Gid) != h.Gid {
+			fail("owner %d:%d, header %d:%d", o.Uid, o.Gid, h.Uid, h.Gid)
+		}
+		if o.Mtime != h.Mtime {
+			fail("mtime %d, header %d", o.Mtime, h.Mtime)
+		}
+		switch h.Type {
+		case tar.TypeReg:
+			if o.Size != h.Size || o.Data != h.Data {
+				fail("content differs (size %d, header %d)", o.Size, h.Size)
+			}
+		case tar.TypeLink:
+			t := byName[h.Link]
+			if t == nil || o.Size != t.Size || o.Data != t.Data || o.Nlink < 2 {
+				fail("hard link does not share the content of %s", h.Link)
+			}
+		case tar.TypeSymlink:
+			if o.Link != h.Link {
+				fail("link target of %d bytes, header %d bytes", len(o.Link), len(h.Link))
+			}
+		case tar.TypeChar, tar.TypeBlock:
+			ma := ((o.Rdev >> 8) & 0xfff) | ((o.Rdev >> 32) & 0xfffff000)
+			mi := (o.Rdev & 0xff) | ((o.Rdev >> 12) & 0xffffff00)
+			if int64(ma) != h.Major || int64(mi) != h.Minor {
+				fail("device %d:%d, header %d:%d", ma, mi, h.Major, h.Minor)
+			}
+		}
+		if len(o.Xattrs) != len(h.Xattrs) {
+			fail("%d xattrs, header %d", len(o.Xattrs), len(h.Xattrs))
+		} else {
+			for k := range o.Xattrs {
+				if o.Xattrs[k] != h.Xattrs[k] {
+					fail("xattr %q differs", o.Xattrs[k][0])
+				}
+			}
+		}
+		res = append(res, r)
+	}
+	return res, tarOut
 }
